@@ -63,6 +63,9 @@ type concAction func(e *concEnv)
 var concActions = map[string]concAction{
 	"pingA": func(e *concEnv) { e.A.Send(ref.Packet{Type: ref.PINGREQ}) },
 	"pubB":  func(e *concEnv) { e.B.Send(pub("x", "m2", 1, 2)) },
+	"pubBburst": func(e *concEnv) { // one segment: a small QoS 0 publish followed by one too large for a's Maximum Packet Size (variant mps)
+		e.B.SendRaw(append(ref.Encode(pub("x", "s1", 0, 0), 4, ref.EncOpts{}), ref.Encode(pub("x", strings.Repeat("L", 200), 0, 0), 4, ref.EncOpts{})...))
+	},
 	"pubB0": func(e *concEnv) { e.B.Send(pub("x", "m2", 0, 0)) },
 	"pubA2": func(e *concEnv) { e.A.Send(pub("x", "n1", 2, 9)) },
 	"ackA":  func(e *concEnv) { e.A.Send(ref.Packet{Type: ref.PUBACK, PacketID: 1}) },
@@ -106,6 +109,11 @@ func concSetup(prefix []int, cfg world.Config) *concEnv {
 
 // concSetupWill: as concSetup; with will=true client a carries a will (topic w, delay 1 s).
 func concSetupWill(prefix []int, cfg world.Config, will bool) *concEnv {
+	return concSetupWith(prefix, cfg, will, nil)
+}
+
+// concSetupWith: as concSetupWill; mod may change a's CONNECT.
+func concSetupWith(prefix []int, cfg world.Config, will bool, mod func(ca *ref.Packet)) *concEnv {
 	w := world.New(prefix, cfg)
 	e := &concEnv{W: w}
 	w.Serve()
@@ -114,6 +122,9 @@ func concSetupWill(prefix []int, cfg world.Config, will bool) *concEnv {
 	if will {
 		ca.WillFlag, ca.WillTopic, ca.WillPayload, ca.WillQos = true, "w", []byte("will-a"), 1
 		ca.WillProps = ref.Props{{ID: ref.PWillDelay, Num: 1}}
+	}
+	if mod != nil {
+		mod(&ca)
 	}
 	e.A = e.dial(ca)
 	w.Run()
